@@ -148,13 +148,20 @@ def proof_gate(pid, cfg):
         if not re.fullmatch(r"exact\s+[^.]*(?:\.[A-Za-z_(][^.]*)*\.", body):
             info["errors"].append(f"theorem {m.group(1)}: property files contain only `exact <lemma>.` proofs")
     axioms = set()
+    in_block = False
     for line in out.split("\n"):
-        m = re.match(r"^([A-Za-z_][A-Za-z_0-9'.]*)\s*:", line)
-        if m and not line.startswith(" "):
-            axioms.add(m.group(1))
-    # lines of the form `name : type` are printed by Check (pins) too; keep only those that are not local theorems
-    local = set(thms)
-    axioms = {a for a in axioms if a.split(".")[-1] not in local and a not in local}
+        if line.startswith("Axioms:"):
+            in_block = True
+            continue
+        if line.startswith("Closed under the global context"):
+            in_block = False
+            continue
+        if in_block and line and not line[0].isspace():
+            m = re.match(r"^([A-Za-z_][A-Za-z_0-9'.]*)", line)
+            if m:
+                axioms.add(m.group(1))
+            else:
+                in_block = False
     info["axioms"] = sorted(axioms)
     notallowed = [a for a in axioms if a not in AXIOM_ALLOW]
     if notallowed:
@@ -216,7 +223,7 @@ def eval_model(pid, sub, cases, workdir):
             f.write(header)
             for i in idxs:
                 c = cases[i]
-                f.write(f"Eval vm_compute in (let i := {c['input']} in ({sub['run']} i, {sub['spec']} i ({c['obs']}))).\n")
+                f.write(f"Eval vm_compute in (let i := {c['input']} in (Some ({sub['run']} i), {sub['spec']} i ({c['obs']}))).\n")
         files.append((path, idxs))
 
     def one(job):
@@ -340,7 +347,7 @@ def main():
                     nontrivial.add(sha(sub["name"] + c["input"]))
                 try:
                     parsed = coqterm.norm(coqterm.parse(r))
-                    model_obs, spec_ok = parsed[1], parsed[2]
+                    model_obs, spec_ok = parsed[1][1], parsed[2]
                     impl_obs = coqterm.norm(coqterm.parse(c["obs"]))
                 except Exception as e:
                     violations.append(("parse", f"cannot parse result of case {idx}: {e}", {"raw": r[:2000]}))
